@@ -21,7 +21,7 @@ The obligations on the data generated from the working tree (`Generated/Prange.l
 are decided through the driver on every run and kernel-checked by `Generated/C16Obligations.lean`.
 -/
 import SkNet.Lemmas.ParFor
-import SkNet.Model.Estimator
+import SkNet.Lemmas.Estimator
 
 namespace SkNet.C16
 open SkNet SkNet.ParFor SkNet.Estimator
@@ -149,6 +149,80 @@ theorem reduction_chunks (init : Int) (chunks : List (List Int)) :
 
 example : ([[1, 2], [], [3]].map fun c => c.foldl (· + ·) (0 : Int)).foldl (· + ·) 10 = 16 := by decide
 
+
+/-- **Any in-place update through an indirect index can lose an update**: if the descriptor of a loop has a load
+    and a store of the same array at an indirect index (the sites of `arr[e] += x`), then there is a loop
+    conforming to the descriptor — two iterations that both update `arr[0]` — and two complete schedules that end in
+    different memories. (Covers `fluid[j] += …` of the pinned D-iteration and `residuals[neighbor] += …` of push.) -/
+theorem indirect_update_not_deterministic (l : Loop) (arr e₁ e₂ : String)
+    (hl : Acc.load arr (.indirect e₁) ∈ l.accs) (hs : Acc.store arr (.indirect e₂) ∈ l.accs) :
+    ∃ (prog : Nat → List Ev) (s₁ s₂ : List Nat) (loc : Loc),
+      ConformsTo l (fun _ => 0) prog ∧ (∀ t, 2 ≤ t → prog t = []) ∧
+      Complete prog 2 (run prog (Cfg.init fun _ => 0) s₁) ∧ Complete prog 2 (run prog (Cfg.init fun _ => 0) s₂) ∧
+      (run prog (Cfg.init fun _ => 0) s₁).mem loc ≠ (run prog (Cfg.init fun _ => 0) s₂).mem loc := by
+  refine ⟨lostUpdateOn arr, [0, 0, 1, 1], [0, 1, 0, 1], (arr, 0), ?_, ?_,
+    lostUpdateOn_complete arr _ (Or.inl rfl), lostUpdateOn_complete arr _ (Or.inr rfl), ?_⟩
+  · intro i ev hev
+    unfold lostUpdateOn at hev
+    split at hev
+    · simp only [List.mem_cons, List.not_mem_nil, or_false] at hev
+      rcases hev with rfl | rfl
+      · exact ⟨_, hl, by simp [Conforms]⟩
+      · exact ⟨_, hs, by simp [Conforms]⟩
+    · simp at hev
+  · intro t ht
+    have : ¬ t < 2 := by omega
+    simp [lostUpdateOn, this]
+  · rw [(lostUpdateOn_outcomes arr).1, (lostUpdateOn_outcomes arr).2]
+    decide
+
+/-- the second `prange` loop of `push_pagerank` as generated on the pinned tree -/
+def pushNeighborLoop : Loop :=
+  { name := "linalg/push.pyx:push_pagerank#1", var := "j", schedule := "static-default",
+    accs := [.load "indices" (.own 0), .load "residuals" (.indirect "neighbor"), .load "residuals" (.fixed "vertex"),
+             .load "degrees" (.fixed "vertex"), .load "residuals" (.indirect "neighbor"),
+             .store "residuals" (.indirect "neighbor"), .load "residuals" (.indirect "neighbor"),
+             .method "worklist" "push" true, .priv "neighbor", .priv "tmp"] }
+
+/-- non-vacuity: both pinned racy loops meet the hypotheses, and fail the check -/
+example : pushNeighborLoop.raceFree = false ∧ diterationLoop.raceFree = false ∧
+    Acc.load "residuals" (.indirect "neighbor") ∈ pushNeighborLoop.accs ∧
+    Acc.store "residuals" (.indirect "neighbor") ∈ pushNeighborLoop.accs := by decide
+
+/-- **The executable race check is exact**: on a loop of `n` iterations `raceFreeB` decides `RaceFree`. -/
+theorem raceFreeB_iff (prog : Nat → List Ev) (n : Nat) (hn : ∀ t, n ≤ t → prog t = []) :
+    raceFreeB prog n = true ↔ RaceFree prog :=
+  ⟨raceFree_of_raceFreeB prog n hn, raceFreeB_of_raceFree prog n⟩
+
+/-- **What each iteration computed is schedule independent too**: under any two complete schedules of a race-free
+    loop every iteration ends with the same private registers (the values it loaded) — hence the same contribution
+    to a reduction variable and the same `lastprivate` values. -/
+theorem raceFree_regs (prog : Nat → List Ev) (hrf : RaceFree prog) (n : Nat) (m0 : Mem) (s₁ s₂ : List Nat)
+    (h₁ : Complete prog n (run prog (Cfg.init m0) s₁)) (h₂ : Complete prog n (run prog (Cfg.init m0) s₂))
+    (t : Nat) (ht : t < n) :
+    (run prog (Cfg.init m0) s₁).regs t = (run prog (Cfg.init m0) s₂).regs t :=
+  raceFree_regs_eq prog hrf m0 s₁ s₂ t (by rw [h₁ t ht, h₂ t ht])
+
+/-- **Exact reduction of a race-free loop**: with per-iteration contributions computed from the iteration's private
+    registers, the reduced value is the same for any two complete schedules, any assignment of iterations to threads
+    (`order₁`, `order₂` are permutations of the iterations) and any order of combination. -/
+theorem reduction_schedule_independent (prog : Nat → List Ev) (hrf : RaceFree prog) (n : Nat) (m0 : Mem)
+    (s₁ s₂ : List Nat)
+    (h₁ : Complete prog n (run prog (Cfg.init m0) s₁)) (h₂ : Complete prog n (run prog (Cfg.init m0) s₂))
+    (contrib : Nat → List ParFor.Val → Int) (init : Int) (order₁ order₂ : List Nat)
+    (hp₁ : order₁.Perm (List.range n)) (hp₂ : order₂.Perm (List.range n)) :
+    (order₁.map fun t => contrib t ((run prog (Cfg.init m0) s₁).regs t)).foldl (· + ·) init =
+    (order₂.map fun t => contrib t ((run prog (Cfg.init m0) s₂).regs t)).foldl (· + ·) init := by
+  have hperm : order₁.Perm order₂ := hp₁.trans hp₂.symm
+  have hmap : (order₁.map fun t => contrib t ((run prog (Cfg.init m0) s₁).regs t)) =
+      (order₁.map fun t => contrib t ((run prog (Cfg.init m0) s₂).regs t)) := by
+    apply List.map_congr_left
+    intro t ht
+    have htn : t < n := by simpa using (hp₁.mem_iff.mp ht)
+    rw [raceFree_regs prog hrf n m0 s₁ s₂ h₁ h₂ t htn]
+  rw [hmap]
+  exact reduction_perm init _ _ (hperm.map _)
+
 /-! ## (B) estimators -/
 
 section History
@@ -248,6 +322,44 @@ theorem history_independent (e : Est) (hok : e.coreOK = true) (sem : Sem e Inp) 
     exact hinv a hnm
 
 end History
+
+
+/-- **History independence is compositional.** If a `fit` consists of a first phase conforming to `e₁` (typically the
+    `fit` of an attribute object such as `self.solver` or `self._clustering_method`, its attributes carrying a
+    prefix) followed by a phase conforming to `e₂` (which may read what the first phase assigned), then the whole
+    call conforms to `e₁.seq e₂`; so if the composed description passes `coreOK` — a decidable check — the call is
+    history independent. This is the semantic reading of the recursive clause of `Est.historyOK` for attribute
+    objects. -/
+theorem history_independent_seq {Inp : Type} (e₁ e₂ : Est) (h₁ : e₁.normalised = []) (h₂ : e₂.normalised = [])
+    (hok : (e₁.seq e₂).coreOK = true) (sem₁ : Sem e₁ Inp) (sem₂ : Sem e₂ Inp) (c0 p : Store)
+    (ops : List (Op Inp)) (hops : ∀ op ∈ ops, op.wf (e₁.seq e₂)) (x : Inp) (a : String)
+    (ha : a ∉ (e₁.seq e₂).logs) :
+    let both := sem₁.seq sem₂ h₁
+    sem₂.fit (sem₁.fit (both.run ((e₁.seq e₂).fresh c0 p) ops) x) x a =
+      sem₂.fit (sem₁.fit ((e₁.seq e₂).fresh c0 (paramsAfter p ops)) x) x a := by
+  intro both
+  have := history_independent (e₁.seq e₂) hok both c0 p ops hops x a ha
+  rw [Sem.seq_fit sem₁ sem₂ h₁ h₂, Sem.seq_fit sem₁ sem₂ h₁ h₂] at this
+  exact this
+
+/-- the shape of `HITS` / `PCA`: a solver object created by `__init__` whose `fit` overwrites all of its own fitted
+    attributes from its parameters, then the estimator reads them -/
+def solverPhase : Est :=
+  { name := "solver.fit", params := ["solver.tol"], init := [("solver.tol", .param "solver.tol"), ("solver.values_", .const)],
+    readsFirst := ["solver.tol"], mayWrite := ["solver.values_"], mustWrite := ["solver.values_"], deep := [], logs := [],
+    normalised := [], rng := [], subs := [], blind := [] }
+
+def outerPhase : Est :=
+  { name := "fit", params := [], init := [("scores_", .const)],
+    readsFirst := ["solver.values_"], mayWrite := ["scores_"], mustWrite := ["scores_"], deep := [], logs := [],
+    normalised := [], rng := [], subs := [], blind := [] }
+
+/-- non-vacuity: the composed description passes although the second phase reads an attribute that the call assigns;
+    a solver whose `fit` might leave `values_` untouched would not -/
+example : (solverPhase.seq outerPhase).coreOK = true ∧ (solverPhase.seq outerPhase).readsFirst = ["solver.tol"] := by
+  decide
+
+example : ({ solverPhase with mustWrite := [] }.seq outerPhase).coreOK = false := by decide
 
 /-- a conforming implementation of the repaired Louvain shape: the label is the first draw of the generator that
     `fit` creates from the seed parameter -/
@@ -381,6 +493,79 @@ theorem check_random_state_private (b : List (String × String)) (hb : crsOK b =
     · simp at h1
   refine ⟨_, _, crs_int b hint s w hs, rfl, ?_, rfl, rfl⟩
   simp only; omega
+
+
+/-- what `crsOK` demands of the `None` branch, as a proposition -/
+def NoneGoal (b : List (String × String)) : Prop :=
+  match checkRandomState b .none { globalState := 5, next := 3, entropy := 9 } with
+  | some (.ok (g, _)) => (g.id != 0) = true
+  | _ => False
+
+theorem branchResult_none (r : String) (w0 : World)
+    (h : match branchResult r .none w0 with
+      | some (.ok (g, _)) => (g.id != 0) = true
+      | _ => False)
+    (hw : w0 = { globalState := 5, next := 3, entropy := 9 }) :
+    ∀ (w : World), 0 < w.next → ∃ g w', branchResult r .none w = some (.ok (g, w')) ∧ g.id ≠ 0 := by
+  subst hw
+  intro w hwn
+  unfold branchResult at h ⊢
+  by_cases h1 : (r == "entropy") = true
+  · simp only [h1, if_true]
+    exact ⟨_, _, rfl, by simp; omega⟩
+  · simp only [h1] at h ⊢
+    by_cases h2 : (r == "seeded") = true
+    · simp [h2] at h
+    · simp only [h2] at h ⊢
+      by_cases h3 : (r == "same") = true
+      · simp [h3] at h
+      · simp only [h3] at h ⊢
+        by_cases h4 : (r == "global") = true
+        · simp [h4] at h
+        · simp only [h4] at h ⊢
+          by_cases h5 : (r == "raise:TypeError") = true
+          · simp [h5] at h
+          · simp only [h5] at h
+            by_cases h6 : (r == "raise:ValueError") = true
+            · simp [h6] at h
+            · simp [h6] at h
+
+/-- **`None` never yields numpy's global generator**: for every table passing `crsOK` and every world. -/
+theorem check_random_state_none_not_global (b : List (String × String)) (hb : crsOK b = true) (w : World)
+    (hw : 0 < w.next) :
+    ∃ g w', checkRandomState b .none w = some (.ok (g, w')) ∧ g.id ≠ 0 := by
+  have hgoal : NoneGoal b := by
+    unfold crsOK at hb
+    simp only [Bool.and_eq_true] at hb
+    obtain ⟨⟨⟨_, h2⟩, _⟩, _⟩ := hb
+    unfold NoneGoal
+    split at h2
+    · rename_i g w' heq
+      rw [heq]
+      simpa using h2
+    · simp at h2
+  clear hb
+  induction b with
+  | nil =>
+    unfold NoneGoal checkRandomState at hgoal
+    simp at hgoal
+  | cons br rest ih =>
+    obtain ⟨t, r⟩ := br
+    unfold NoneGoal at hgoal
+    unfold checkRandomState at hgoal ⊢
+    cases hth : testHolds t .none with
+    | none => simp [hth] at hgoal
+    | some bv =>
+      cases bv with
+      | true =>
+        simp only [hth] at hgoal ⊢
+        exact branchResult_none r _ hgoal rfl w hw
+      | false =>
+        simp only [hth] at hgoal ⊢
+        exact ih hgoal
+
+example : ∃ g w', checkRandomState crsPinned .none { globalState := 1, next := 2, entropy := 77 } = some (.ok (g, w')) ∧ g.id ≠ 0 :=
+  check_random_state_none_not_global crsPinned (by decide) _ (by decide)
 
 /-- non-vacuity: the pinned table passes, and `check_random_state(42)` in a world with two generators -/
 example : crsOK crsPinned = true := by decide
